@@ -89,7 +89,7 @@ def firstdiff(x, y, d=0, maxd=400):
     if x is y: return False
     if d > maxd: print(pad, '...'); return True
     if x.k != y.k or x.w != y.w:
-        print(pad, 'KIND/WIDTH', ir.describe(x, 3), '|||', ir.describe(y, 3)); return True
+        print(pad, 'KIND/WIDTH', ir.describe(x, 3), '|||', ir.describe(y, 3), 'ATTRS', x.a, y.a, [ir.node(s[0]).a for s in x.a if x.k == 'cat' and s[0] != 'c']); return True
     if x.k == 'cat':
         if len(x.a) != len(y.a) or any((a[0] == 'c') != (b[0] == 'c') or a[1:] != b[1:] and a[0] != 'c' for a, b in zip(x.a, y.a)):
             print(pad, 'CAT-SHAPE', [(s if s[0]=='c' else (ir.node(s[0]).k+str(ir.node(s[0]).w), s[1], s[2])) for s in x.a][:8], '|||', [(s if s[0]=='c' else (ir.node(s[0]).k+str(ir.node(s[0]).w), s[1], s[2])) for s in y.a][:8]); return True
